@@ -323,15 +323,22 @@ pub fn run_migration_history(seed: u64, opts: &Opts, st: &mut Stats) -> History 
     let mut g = GenState { next_id: 0, id_base: (seed % 1_000_000) * 10_000 };
     let mut events: BTreeMap<String, Vec<Value>> = BTreeMap::new();
     let steps = r.range(15, 70);
+    let mut last: Option<Op> = None;
     for _ in 0..steps {
         if hist.stopped {
             break;
         }
-        let op = gen_step(&mut r, &rg, &hist.w, &mut g);
+        // now and then the request just made is sent once more, unchanged (two equal fills in one block
+        // leave two identical consecutive entries in an old-format log)
+        let op = match &last {
+            Some(l) if r.chance(8) => l.clone(),
+            _ => gen_step(&mut r, &rg, &hist.w, &mut g),
+        };
         let pre = Book::read(&hist.w);
         let out = hist.step(op.clone(), opts, st);
         let post = Book::read(&hist.w);
         record_bid_events(&mut events, &pre, &post, &op, &out);
+        last = if matches!(op, Op::Exec { .. }) { Some(op) } else { None };
     }
     if hist.stopped {
         hist.finish(opts, st);
@@ -365,6 +372,11 @@ pub fn run_migration_history(seed: u64, opts: &Opts, st: &mut Stats) -> History 
     let msg = if r.chance(55) { json!({}) } else { gen_migrate_msg(&mut r, &cfg.pool) };
     let plain = msg.as_object().map_or(false, |o| o.is_empty());
     let out = hist.step(Op::Migrate { msg }, opts, st);
+    // the bookkeeping kept beside the book (per-order escrow ledger, attribute-driven shadow book) continues
+    // from what the history REALLY produced, not from what the conversion wrote
+    if out.is_ok() && VERSIONS_IN_WINDOW.contains(&ver) && Book::read(&hist.w).odd_bids.is_empty() && Book::read(&hist.w).odd_asks.is_empty() {
+        hist.h.resync(&original);
+    }
     // round trip: with no overrides and a version inside the window the migrated storage must be
     // the original, byte for byte (the original version record is the current package version)
     if out.is_ok() && plain && VERSIONS_IN_WINDOW.contains(&ver) {
@@ -433,6 +445,11 @@ pub fn run_random_logs(seed: u64, opts: &Opts, st: &mut Stats) -> History {
                 _ => json!({"Reject": {"base": coinj(r.below(100) as u128, "base"), "fee": fee, "quote": coinj(r.below(1000) as u128, "q0")}}),
             };
             evs.push(json!({"action": e, "block_info": {"height": r.below(1000000), "time": "1571797419879305533"}}));
+            // two equal operations in one block leave two identical consecutive entries
+            while r.chance(20) {
+                let last = evs.last().cloned().unwrap();
+                evs.push(last);
+            }
         }
         let v = if r.chance(80) {
             json!({"base": coinj(1u128 << 100, "base"), "events": evs, "fee": if with_fee { coinj(1u128 << 99, "q0") } else { Value::Null }, "id": id, "owner": r.pick(&cfg.pool), "price": "2", "quote": coinj(1u128 << 101, "q0")})
